@@ -23,27 +23,22 @@ RULE = (c08_de.RULE + ".  NM/Powell half: every behaviour of specs/solver/NMExac
         "by TLC against the decision tree of NM.tla / the outer loop of Powell.tla.  Non-trivial (NM) = an iteration that "
         "takes a branch other than start/build")
 
-NMPW_PARTS = ("nm_exact", "nm_traces", "powell_traces", "xcheck")
 
 
 def run(a, corrupt=None):
     ck = Check("C08", "model_checking", a.tier, a.seed, rule=RULE)
     ck.exhaustive = True
+    # the Nelder-Mead / Powell half first starts its long exact-replay TLC run in a forked child, which then overlaps
+    # with its own trace pipelines; the DE half follows
+    walls = {}
+    t1 = time.time()
+    c08_nmpw.run_half(ck, a, corrupt=(corrupt == "nmpw"), walls=walls)
+    ck.extra["wall_nmpw_half_s"] = round(time.time() - t1, 1)
+    ck.extra["wall_nmpw_parts_s"] = walls
     t0 = time.time()
     c08_de.explore(ck, a, corrupt=corrupt if corrupt in ("strategy", "de") else None)
     ck.extra["wall_de_half_s"] = round(time.time() - t0, 1)
-    for part in NMPW_PARTS:
-        fn = getattr(c08_nmpw, part, None)
-        if fn is None:
-            ck.extra.setdefault("parts_not_built", []).append(part)
-            continue
-        t1 = time.time()
-        if part == "xcheck":
-            fn(ck, a)
-        else:
-            fn(ck, a, corrupt=(corrupt == part))
-        ck.extra["wall_%s_s" % part] = round(time.time() - t1, 1)
-    for x in getattr(c08_nmpw, "ASSUMPTIONS", []):
+    for x in getattr(c08_nmpw, "ASSUMPTIONS_NMPW", []):
         if x not in ck.assumptions:
             ck.assumptions.append(x)
     return ck
@@ -51,17 +46,7 @@ def run(a, corrupt=None):
 
 def selftest(a):
     rc = c08_de.selftest(a)
-    st = getattr(c08_nmpw, "selftest_nmpw", None)
-    if st is not None:
-        rc = st(a) or rc
-    else:
-        # minimal binding demonstration for the exact replay: one corrupted expected energy must be noticed
-        ck = Check("C08", "model_checking", a.tier, a.seed, rule=RULE)
-        ck.dry = True
-        c08_nmpw.nm_exact(ck, a, corrupt=True)
-        ok = ck.violations > 0
-        print("SELFTEST nm_exact corrupted expected energy: %s" % ("caught" if ok else "MISSED"))
-        rc = rc or (0 if ok else 1)
+    rc = c08_nmpw.selftest_nmpw(a) or rc
     return rc
 
 
